@@ -54,6 +54,7 @@ def variations(P):
     V["nw_no_seasonality"] = dict(nw, seasonality="no_seasonality")
     V["nw_crops_die"] = dict(nw, crop_disruption="all_crops_die_instantly", grasses="all_crops_die_instantly")
     V["nw_T50"] = dict(nw, MINIMUM_PERCENT_FED_BEFORE_NONHUMAN_CONSUMPTION_ALLOWED=50)
+    V["nw_large_animal_350kg"] = dict(nw, kg_meat_per_large_animal=350)
     V["base_72m"] = dict(P["net_baseline"], NMONTHS=72)
     V["nw_48m"] = dict(nw, NMONTHS=48)
     V["res_84m"] = dict(P["net_nuclear_resilient"], NMONTHS=84)
@@ -116,6 +117,7 @@ def jobs(tier, seed=0):
         res.append(dict(cc=cc, preset=name, options=s))
     # histories: the same title is run twice with different options (longer horizon first), so that every table of the
     # second run is written over one that already exists
+    res.append(dict(cc="USA", preset="nw_large_animal_350kg", options=copy.deepcopy(V["nw_large_animal_350kg"])))
     for cc, name in ([("DJI", "net_baseline"), ("LSO", "net_nuclear_winter")] if tier == "quick" else
                      [("DJI", "net_baseline"), ("LSO", "net_nuclear_winter"), ("NZL", "ms_worst"), ("EST", "net_nuclear_resilient")]):
         main = dict(copy.deepcopy(P[name]), NMONTHS=60)
